@@ -8,11 +8,12 @@ HERE = os.path.dirname(os.path.dirname(os.path.abspath(__file__)))
 # id -> (technique, level text, level note, design ref)
 CLAIMED = {
     "C13": (
-        "Lean 4 theorems over a hand-written model of _rpm_vercmp / InstalledRpm operators (order laws by induction on the loop) + differential correspondence with the real code",
-        "Proof: reflexivity, antisymmetry, transitivity (all triples, unbounded strings), totality of vercmp and of the epoch/version/release comparison, "
-        "operator agreement, trichotomy and extremality of newest/oldest are Lean theorems over IV.Rpm; the model is tied to the code by running both on "
-        "generated pairs, package objects and package lists on every run. Agreement with RPM itself is checked by the oracle (byte-level port of rpmvercmp.c + RPM's own table), not proved.",
-        "Trusted: Lean kernel; axioms propext/Classical.choice/Quot.sound; the correspondence harness (harness/c13.py); the port of rpmvercmp.c used as reference for 'RPM's ordering'; int() epoch parsing modelled for decimal strings only.",
+        "Lean 4 theorems over a hand-written model of _rpm_vercmp / InstalledRpm operators: equality with a line-by-line transcription of RPM's rpmvercmp.c on code units, refinement to a lexicographic token order, order laws by induction on the loop; differential correspondence with the real code",
+        "PROVED (all strings of any length and characters): the model of _rpm_vercmp returns exactly the value of Reference.rpmvercmp — a transcription of RPM's lib/rpmvercmp.c on code units — applied to the encoded strings, for every encoding that keeps ASCII and maps each other "
+        "character to a non-empty run of units >= 128 (UTF-8 proved to be one: vercmp_eq_reference, utf8_encOk); both loops' fuel is proved sufficient; the comparison equals the lexicographic extension over token lists of the total preorder ~ < end < ^ < alpha < num "
+        "(vercmp_eq_lex, tokCmp_total_preorder); reflexivity, antisymmetry, transitivity (all triples, unbounded strings), totality of vercmp and of the epoch/version/release comparison, operator agreement, trichotomy and extremality of newest/oldest. "
+        "Tied: the model is run against the real code on generated pairs, package objects and package lists on every run; the transcription is run on all 103 rows of RPM's own rpmvercmp.at table and against an independent Python port of the C file.",
+        "Trusted: Lean kernel; axioms propext/Classical.choice/Quot.sound; the transcription of rpmvercmp.c (lean/IV/Model/RpmRef.lean, C source quoted in the file; C's `*p` modelled as `p != []`); the correspondence harness (harness/c13.py); int() epoch parsing modelled for decimal strings only.",
         "DESIGN.md §6 C13"),
 }
 
@@ -92,6 +93,15 @@ CLAIMED["C05"] = (
     "(context-free-implementation, context-through-registry-point). Tied: 4 correspondence streams (registration, supplier rule, evaluation with every context/outcome, shipped spec sets: 848 points, 8 contexts).",
     "Trusted: Lean kernel + propext/Classical.choice/Quot.sound; harness generators, adapters, oracle; the contexts handed to the model come from the generator's own tree walk (validated by the IGNORE comparison); nested re-declared RegistryPoints and flag propagation are not modelled; engine atomicity / Valid orders as in C01-C04.",
     "DESIGN.md §6 C05")
+
+CLAIMED["C15"] = (
+    "Lean 4 theorems over a hand-written executable model of the shared text-format helpers (round trips render -> parse), matcher table translated from the live source on every run; differential correspondence through the real helpers and IniConfigFile via context_wrap",
+    "Proof: key/value round trip with last-wins for both use_partition settings and inertness of comment/blank lines for any text and flags (kv_roundtrip, comments_inert); fixed-width round trip at FULL strength — any number of columns, headers that are substrings or duplicates "
+    "of others, empty / inner-space / exact-fill cells, junk and footer lines (fixed_roundtrip; old_index_rule_witness documents the repaired defect); keyword_search = exact filter in order with the five matchers pinned by rfl to the regenerated table; "
+    "sections() = first-occurrence section names without DEFAULT; case-insensitive option lookup. FALSE of the current code with Lean witnesses = two known findings (DEFAULT option overriding a section's own value; first-of-duplicate DEFAULT inherited). "
+    "Tied only (no theorem yet): parse_delimited_table round trip, INI last-duplicate-wins, calc_offset, every IniConfigFile accessor, the INI grammar on rendered documents (an instance of C19's combinators), string primitives incl. the isspace table over all code points.",
+    "Trusted: Lean kernel + propext/Classical.choice/Quot.sound; harness/c15.py (generators, renderers duplicated in Python, canonicalisers, oracle); translate/matchers.py; ASCII lower(); string search values and parent=None in keyword_search.",
+    "DESIGN.md §6 C15")
 
 PENDING_REASON = "check not built yet in this round (planned: DESIGN.md §6); no claim is made until its model, theorems and correspondence run exist"
 
